@@ -51,6 +51,8 @@ type vFixOpts struct {
 	depsCheck   bool
 	extra       []disk.Option
 	hardLimit   int64
+	dir         string // reuse an existing cache directory (restart); "" = fresh
+	zstdImpl    string // "" = go
 }
 
 var vSilent = log.New(io.Discard, "", 0)
@@ -65,9 +67,16 @@ func vNewFix(t testing.TB, o vFixOpts) *vFix {
 	if o.maxSize == 0 {
 		o.maxSize = 1 << 30
 	}
-	dir, err := os.MkdirTemp(vTempBase(), "verif-srv-")
-	if err != nil {
-		t.Fatal(err)
+	dir := o.dir
+	if dir == "" {
+		var err error
+		dir, err = os.MkdirTemp(vTempBase(), "verif-srv-")
+		if err != nil {
+			t.Fatal(err)
+		}
+	}
+	if o.zstdImpl != "" {
+		o.extra = append(o.extra, disk.WithZstdImplementation(o.zstdImpl))
 	}
 	opts := append([]disk.Option{disk.WithAccessLogger(vSilent), disk.WithStorageMode(o.mode), disk.WithMaxBlobSize(o.maxBlob)}, o.extra...)
 	if o.hardLimit > 0 {
@@ -101,10 +110,15 @@ func vNewFix(t testing.TB, o vFixOpts) *vFix {
 }
 
 func (f *vFix) Close() {
+	f.Stop()
+	_ = os.RemoveAll(f.dir)
+}
+
+// Stop shuts the servers down but keeps the directory (for a restart on it).
+func (f *vFix) Stop() {
 	f.http.Close()
 	_ = f.conn.Close()
 	f.srv.Stop()
-	_ = os.RemoveAll(f.dir)
 }
 
 func vSha(b []byte) string {
